@@ -3,7 +3,7 @@ import lm
 import rules
 from lm import S, strip, cval
 from props.common import Ctx, has, fmt_facts, guard_retvals
-from props.containers import node_bookkeeping, dtor_discipline, is_free_call, itr_removed_guards
+from props.containers import node_holders, node_bookkeeping, dtor_discipline, is_free_call, itr_removed_guards
 from props.cmp import narrowing_findings
 
 LEVEL = "other"
@@ -131,6 +131,7 @@ def run(ck, P):
         det = "duplicate test '%s' on the slot bst_find returned; new node linked into that slot" % atom[0]
     ck.ob("C11.4-SET", ins.site("EEXIST<->found"), ok, det, witness=[("drop_branch", ins.unit, ins.name, g.block) for g in gs])
     node_bookkeeping(ck, P, X, "C11.4-SET", B, {"bst_node *"}, "_bst")
+    node_holders(ck, P, X, "C11.4-SET", B, "_bst", "bst_node", {"root"})
 
     # ------------------------------------------------------------------ 5. destructor runs in remove_node and only there
     ck.rule("C11.5-DTOR-SITES", "R-WHO-CALLS: the element destructor is invoked only in remove_node (under a non-NULL test); "
